@@ -121,7 +121,6 @@ impl Exec {
         Exec { ctl, handles, at: vec![None; n] }
     }
 
-    pub fn nthreads(&self) -> usize { self.at.len() }
     pub fn is_idle(&self, tid: usize) -> bool { self.at[tid].is_none() }
 
     fn wait_arrival(&mut self, tid: usize) -> Arr {
